@@ -15,7 +15,7 @@ from simkit import gen, launch, pipe, ref
 from simkit.kernel import EventLog, Forks, RunStats, Violation, digest, f64_bits, sub_rng
 
 SPEC = {
-    "C09": dict(engine="predsim", level="exploration", runs=dict(quick=800, thorough=20000), chunk=8,
+    "C09": dict(engine="predsim", level="exploration", runs=dict(quick=800, thorough=8000), chunk=8,
                 rule="per run: one screen (arity 1 or 2, control in either or both columns), one holder of 2-5 samples of one of the "
                      "two shipped sample types, and a seeded history of 6-30 prediction calls (per-sample and stacked/averaged helpers) "
                      "on the whole screen, plate views, batch-conditioned unions, random subsets, a column-swapped twin and a "
